@@ -542,6 +542,10 @@ void ExecImpl::op_wide(const Op& op) {
   drain_stream_tracers(o);   // a tracer may be alive: its record of this call belongs to this operation, not to the next call
   std::string who = std::string("wide call ") + R.name + " (arity " + std::to_string(R.n) + ")";
   if (threw || !o.reports.empty()) { fail("C09,C01", "wide_rejected", who + " with wildcard matchers was not accepted" + (o.reports.empty() ? "" : ": " + o.reports[0].msg)); return; }
+  if (R.ident < 0) {
+    if (R.copies != 0 || !R.satisfied) fail("C09", "wide_throw_move", who + ": THROW(std::move(_k)) must move the argument into the exception (copies made: " + std::to_string(R.copies) + ", exception received intact: " + std::to_string(R.satisfied) + ")");
+    return;
+  }
   if (R.ident) {
     if (R.ret_addr != R.want_ret || !R.satisfied) fail("C08,C09", "wide_return_identity", who + ": RETURN(_" + std::to_string(R.ident) + ") did not hand the caller its own argument (that very object)");
     return;
@@ -554,6 +558,7 @@ void ExecImpl::op_wide(const Op& op) {
       if (p == 2 && (R.mode[k] == WM_REF || R.mode[k] == WM_PTR)) wv = 1000 + k;   // written through by an earlier side effect
       if (R.seen[p][k].val != wv) { fail("C09", "wide_position", who + ": _" + std::to_string(k) + " in " + ph[p] + " has value " + std::to_string(R.seen[p][k].val) + ", the caller passed " + std::to_string(wv) + " at that position"); return; }
       if (R.mode[k] == WM_VAL) { if (R.seen[p][k].addr != R.seen[0][k].addr || !R.seen[p][k].addr) { fail(p == 2 ? "C09,C08" : "C09", "wide_alias", who + ": _" + std::to_string(k) + " is a different object in " + ph[p]); return; } }
+      else if (R.mode[k] == WM_REF && !R.seen[p][k].nc) { fail("C09", "wide_const", who + ": _" + std::to_string(k) + " in " + ph[p] + " is const although the parameter is a non-const reference (a write through it could not reach the caller)"); return; }
       else if (R.seen[p][k].addr != R.want_addr[k]) { fail(p == 2 ? "C09,C08" : "C09", "wide_alias", who + ": _" + std::to_string(k) + " in " + ph[p] + " does not alias the caller's argument (passing mode " + std::to_string(R.mode[k]) + ")"); return; }
     }
     if ((R.mode[k] == WM_REF || R.mode[k] == WM_PTR) && R.after[k] != 1000 + k) { fail("C09", "wide_out_param", who + ": a write through _" + std::to_string(k) + " is not seen by the caller"); return; }
